@@ -405,11 +405,44 @@ def gen_holes_case(rng):
 
 # ------------------------------------------------------------------ running the real code
 def _call(site, fn, out, **kw):
+    # the graph-based split keys its nodes by coordinates rounded to a grid
+    # (network.coordinates_hash); when two computations of one and the same point fall on
+    # different sides of a rounding boundary the graph gets two nodes for it.  That configuration
+    # is observed here (not the symptom): the hash function is wrapped during the call.
+    from ladybug_geometry import network as _nw
+    seen = []
+    orig = _nw.coordinates_hash
+
+    def spy(point, tolerance):
+        k = orig(point, tolerance)
+        seen.append((point.x, point.y, k))
+        return k
+    _nw.coordinates_hash = spy
     try:
-        out.append(dict(site=site, result=fn(), err=None, **kw))
-    except Exception as e:                                        # noqa
-        out.append(dict(site=site, result=None, err='%s: %s' % (type(e).__name__, str(e)[:160]),
-                        **kw))
+        try:
+            out.append(dict(site=site, result=fn(), err=None, **kw))
+        except Exception as e:                                        # noqa
+            out.append(dict(site=site, result=None,
+                            err='%s: %s' % (type(e).__name__, str(e)[:160]), **kw))
+    finally:
+        _nw.coordinates_hash = orig
+    split = False
+    if seen:
+        byk = {}
+        for (x, y, k) in seen:
+            byk.setdefault(k, (x, y))
+        reps = sorted(byk.values())
+        for i, (x, y) in enumerate(reps):
+            for (x2, y2) in reps[i + 1:i + 40]:
+                if x2 - x > 1e-7:
+                    break
+                if abs(y2 - y) <= 1e-9 * max(1.0, abs(y)) and \
+                        abs(x2 - x) <= 1e-9 * max(1.0, abs(x)):
+                    split = True
+                    break
+            if split:
+                break
+    out[-1]['key_split'] = split
 
 
 def eval_bool(case, frame):
@@ -801,6 +834,11 @@ def _case_fp(case):
 def classify_split(case, e, rp, info, none=False):
     kind, sig, extra = _classify_split(case, e, rp, info, none)
     if kind in ('not-split', 'hole-dropped', 'piece-lost', 'overlap', 'wrong-region'):
+        if e.get('key_split'):
+            return ('key-rounding', 'Face3D.split_with_*|key-rounding',
+                    extra + '; during the call one point received two different node keys '
+                    '(its coordinates straddle a rounding boundary of coordinates_hash), so the '
+                    'split graph has two nodes for it')
         sig = '%s#%s' % (sig, _case_fp(case))
     return (kind, sig, extra)
 
